@@ -24,8 +24,10 @@ MANIFEST = dict(
               "pdsh/pdcp binaries against the compiled model + specification oracle on the real -q dump / exit status",
     text="Theorems in lean/PdshVerif/Props/C18.lean about the model Opt/Settings.lean: every setting equals the conversion "
          "of command line <|> environment <|> default (all option orders, any other options present), bad values are "
-         "refused and an accepted fanout is >= 1 in the repaired variant, with kernel-checked counterexamples for the "
-         "unchanged code (-f 0, FANOUT=, -f -1, -f 4294967297, -t -4294967295). The model is executed against the real "
+         "refused and an accepted fanout is >= 1 in the repaired variant, valid settings are accepted and take exactly the "
+         "value written (accepts_valid, takes_value_given), values given per target in -w words are checked too, with "
+         "kernel-checked counterexamples for the unchanged code (-f 0, FANOUT=, -f -1, -f 4294967297, -t -4294967295, "
+         "over-long user@, -M after a module option with argument). The model is executed against the real "
          "binaries on generated environment x argument combinations; the real observations are judged by Opt/Spec.lean.",
     design_ref="DESIGN.md section 5 C18, section 6 D4 D5",
     note="Lean 4.33 kernel; axioms propext/Classical.choice/Quot.sound at most (audited per theorem every run); hand-written "
@@ -172,6 +174,40 @@ def gen_single(pers, letter, src, value, files):
     return Case(pers, opts, env, operands_for(pers, files))
 
 
+def gen_wcoll(rng, files):
+    """-w words of the documented form [rcmd_type:][user@]hosts: transports and remote users given per target"""
+    pers = rng.choice(["dsh", "dsh", "dsh", "pdcp"])
+    words, types, users, malformed = [], [], [], False
+    for _ in range(rng.choice([1, 1, 2, 3])):
+        ty = rng.choice([None, None, None, "exec", "rsh", "nosuch", "", "ssh"])
+        us = rng.choice([None, None, None, "bob", "alice_1", "u" * 255, "u" * 256, "u" * 257, "u" * 300, ""])
+        hosts = rng.choice(["foo", "bar", "h[0-2]", "n1", "a1,a2"])
+        if rng.random() < 0.06:
+            # user before the transport: not of the documented form (also with loaded module names on both sides)
+            words.append(rng.choice(["bob@exec:", "exec@rsh:", "rsh@exec:"]) + hosts)
+            malformed = True
+            continue
+        w = hosts
+        if us is not None:
+            w = us + "@" + w
+            users.append(us)
+        if ty is not None:
+            w = ty + ":" + w
+            types.append(ty)
+        words.append(w)
+    opts = [("w", ",".join(words)), ("q", None)]
+    if rng.random() < 0.3:
+        opts.append(("l", rng.choice(["alice", "root"])))
+    if rng.random() < 0.3:
+        opts.append(("R", rng.choice(["rsh", "exec"])))
+    if rng.random() < 0.2:
+        opts.append(("f", rng.choice(VALID_NUMS)))
+    rng.shuffle(opts)
+    c = Case(pers, opts, {}, operands_for(pers, files), [rng.choice(["sep", "att"]) for _ in opts])
+    c.wspec = {"types": types, "users": users, "malformed": malformed}
+    return c
+
+
 def gen_syntax(rng, files):
     """correspondence only: repeats, early exits, unknown options, missing arguments, options after operands"""
     pers = rng.choice(["dsh", "dsh", "pdcp"])
@@ -262,11 +298,13 @@ def base_fields(real, pers):
                                                        ",".join(hx(a) for a in real.avail[pers]))
 
 
-def model_line(real, case, argv, env=None, avail=None):
+def model_line(real, case, argv, env=None, avail=None, modopts=""):
     env = case.env if env is None else env
     base = base_fields(real, case.pers)
     if avail is not None:
         base = re.sub(r"avail=\S*", "avail=" + ",".join(hx(a) for a in avail), base)
+    if modopts:
+        base += " modopts=" + hx(modopts)
     return "%s env=%s argv=%s" % (base, ",".join("%s:%s" % (hx(k), hx(v)) for k, v in env.items()),
                                   ",".join(hx(a) for a in argv))
 
@@ -296,6 +334,14 @@ def spec_line(real, case, obs, rank, mw=None, avail=None):
             t = case.text(l, "e")
             if t is not None:
                 parts.append("%s=%s" % (ek, hx(t)))
+    ws = getattr(case, "wspec", None)
+    if ws:
+        if ws["types"]:
+            parts.append("wt=" + ",".join(hx(t) for t in ws["types"]))
+        if ws["users"]:
+            parts.append("wu=" + ",".join(hx(u) for u in ws["users"]))
+        if ws["malformed"]:
+            parts.append("wm=1")
     if obs is not None:
         parts.append("obs=" + obs)
     if mw is not None:
@@ -309,7 +355,7 @@ def case_record(ctx, c, argv, rc, err_, kind, **extra):
     d = {"pers": c.pers, "env": c.env, "argv": argv, "exit": rc, "stderr": (err_ or b"").decode("latin1")[-200:],
          "kind": kind, "opts": [list(o) for o in c.opts], "style": c.style, "dashdash": c.dashdash,
          "struct_ok": c.struct_ok, "oracle": c.oracle, "operands": [rel(w) for w in c.operands],
-         "drop_last": bool(getattr(c, "_drop_last", False))}
+         "drop_last": bool(getattr(c, "_drop_last", False)), "wspec": getattr(c, "wspec", None)}
     d.update(extra)
     return d
 
@@ -330,6 +376,8 @@ def load_replay(ctx):
              kind=k.get("kind", "q"))
     if k.get("drop_last"):
         c._drop_last = True
+    if k.get("wspec"):
+        c.wspec = k["wspec"]
     c.group = "replay"
     ctx.log("replay of %s: %s env %s argv %s (signature %s)" % (os.path.basename(ctx.replay), c.pers, c.env, c.argv(),
                                                              rp.get("signature")))
@@ -341,7 +389,33 @@ def rank_from_gen():
     return re.findall(r'"([^"]*)"', re.search(r"RCMD_RANK : List String := \[(.*)\]", src).group(1))
 
 
-def detect_variant(real):
+def build_test_modules(ctx, repo):
+    """the conflicting misc modules A and B of tests/test-modules plus harness/optmod_g.c (module G: an option WITH
+    an argument), all inside the scratch copy; returns the module directory or None"""
+    tm = os.path.join(repo, "tests", "test-modules")
+    mk = subprocess.run(["make", "-C", tm, "a.la", "b.la"], stdout=subprocess.PIPE, stderr=subprocess.STDOUT)
+    moddir = os.path.join(tm, ".libs")
+    if mk.returncode != 0 or not os.path.exists(os.path.join(moddir, "a.so")):
+        ctx.broken.append(("C-BROKEN", "test modules build", mk.stdout.decode("latin1")[-600:]))
+        return None
+    g = subprocess.run(["gcc", "-shared", "-fPIC", "-w", "-DHAVE_CONFIG_H", "-I" + repo, "-I" + repo + "/src/pdsh",
+                        "-I" + repo + "/src/common", os.path.join(HARNESS, "optmod_g.c"), "-o", os.path.join(moddir, "g.so")],
+                       stdout=subprocess.PIPE, stderr=subprocess.STDOUT)
+    if g.returncode != 0:
+        ctx.broken.append(("C-BROKEN", "module G build", g.stdout.decode("latin1")[-600:]))
+        return None
+    return moddir
+
+
+MODOPTS = "ag:"      # what A/B (-a) and G (-g name) register
+
+
+def active_misc(out):
+    act = dict(re.findall(r"Module: misc/(\S+)\n(?:.*\n){2}Active: (\w+)", out.decode("latin1")))
+    return "A" if act.get("A") == "yes" else ("B" if act.get("B") == "yes" else "?")
+
+
+def detect_variant(real, moddir):
     def acc(argv, env=None):
         rc, out, _ = real.run("dsh", ["-q", "-w", "x"] + argv, env or {})
         return rc == 0 and parse_dump(out)
@@ -350,7 +424,13 @@ def detect_variant(real):
     d5 = not (a and a["fanout"] == "1")
     at = not acc(["-u", "5x"])
     dopt = bool(acc(["-d"]))
-    return "".join("1" if b else "0" for b in (d4, d5, at, dopt))
+    rc, _, _ = real.run("dsh", ["-q", "-w", "u" * 300 + "@x"], {})
+    wuser = rc != 0
+    early = False
+    if moddir:
+        rc, out, _ = real.run("dsh", ["-L", "-g", "x", "-M", "B"], {"PDSH_MODULE_DIR": moddir}, user=1000)
+        early = active_misc(out) == "B"
+    return "".join("1" if b else "0" for b in (d4, d5, at, dopt, wuser, early))
 
 
 # --------------------------------------------------------------------------- main
@@ -366,6 +446,8 @@ def run(ctx):
                    "with valid/hostile values, shuffled, written separate/attached/clustered; (C) all orders of <= 4 options; "
                    "(D) syntax cases (repeats, early exits -L -V -h, unknown options, missing arguments, `--`, options after "
                    "operands; correspondence only); (E) module selection through -L with the conflicting test modules A/B; "
+                   "(G) -w words [rcmd_type:][user@]hosts with loaded/unknown transports, short/over-long users, a malformed prefix; "
+                   "(H) options registered by modules (-a, -g NAME of the test modules A/B/G) before and after -M; "
                    "(F) real `-R exec` runs with a 5 s limit for accepted configuration classes; non-trivial = at least one "
                    "setting given by option or variable; distinct = distinct (personality, environment, argv)"}
     dist = {"single": 0, "combo": 0, "orders": 0, "syntax": 0, "misc": 0, "runs": 0, "accepted": 0, "rejected": 0,
@@ -378,8 +460,9 @@ def run(ctx):
         os.chmod(ctx.scratch, 0o755)
         real = Real(ctx, repo)
         rank = rank_from_gen()
-        bits = detect_variant(real)
-        cov["variant_detected"] = dict(zip(["d4", "d5", "atoi", "dopt"], [b == "1" for b in bits]))
+        moddir = build_test_modules(ctx, repo)
+        bits = detect_variant(real, moddir)
+        cov["variant_detected"] = dict(zip(["d4", "d5", "atoi", "dopt", "wuser", "early"], [b == "1" for b in bits]))
         ctx.log("code under test contains repairs:", cov["variant_detected"], "rcmd modules:", real.avail)
         quick = ctx.quick()
         rp_case, rp_kind = load_replay(ctx)
@@ -427,6 +510,10 @@ def run(ctx):
         for _ in range(350 if quick else 6000):
             c = gen_syntax(rng, real.files)
             c.group = "syntax"
+            cases.append(c)
+        for _ in range(150 if quick else 3000):
+            c = gen_wcoll(rng, real.files)
+            c.group = "wcoll"
             cases.append(c)
         for c in load_corpus(real.files):
             cases.append(c)
@@ -538,10 +625,7 @@ def run(ctx):
                              % (c.env, c.opts, list(outs)[:2]),
                              case_record(ctx, c, c.argv(), None, b"", "orders", results=[str(o) for o in outs][:4]))
         # (E) module selection (uid 1000, PDSH_MODULE_DIR = the conflicting test modules A and B)
-        tm = os.path.join(repo, "tests", "test-modules")
-        mk = subprocess.run(["make", "-C", tm, "a.la", "b.la"], stdout=subprocess.PIPE, stderr=subprocess.STDOUT)
-        moddir = os.path.join(tm, ".libs")
-        if mk.returncode == 0 and os.path.exists(os.path.join(moddir, "a.so")):
+        if moddir:
             mcases = []
             for _ in range(60 if quick else 1200):
                 opts = [("w", "foo")]
@@ -552,6 +636,11 @@ def run(ctx):
                         opts.append((fl, None))
                 if rng.random() < 0.3:
                     opts.append(("f", rng.choice(VALID_NUMS)))
+                # options the modules provide: -a (a flag) and -g NAME (with an argument, unknown to opt_args_early)
+                if rng.random() < 0.45:
+                    opts.append(("g", rng.choice(["x", "B", "M", "compute"])))
+                if rng.random() < 0.25:
+                    opts.append(("a", None))
                 rng.shuffle(opts)
                 env = {}
                 if rng.random() < 0.5:
@@ -565,12 +654,9 @@ def run(ctx):
             with concurrent.futures.ThreadPoolExecutor(max_workers=8) as ex:
                 mres = list(ex.map(lambda ca: real.run("dsh", ["-L"] + ca[1], dict(ca[0].env, PDSH_MODULE_DIR=moddir), user=1000),
                                    zip(mcases, margv)))
-            mmod = ctx.model("opt", "".join(model_line(real, c, a, avail=[]) + "\n" for c, a in zip(mcases, margv)),
-                             args=["model", bits])
-            mws = []
-            for rc, out, err_ in mres:
-                act = dict(re.findall(r"Module: misc/(\S+)\n(?:.*\n){2}Active: (\w+)", out.decode("latin1")))
-                mws.append("A" if act.get("A") == "yes" else ("B" if act.get("B") == "yes" else "?"))
+            mmod = ctx.model("opt", "".join(model_line(real, c, a, avail=[], modopts=MODOPTS) + "\n"
+                                            for c, a in zip(mcases, margv)), args=["model", bits])
+            mws = [active_misc(out) for rc, out, err_ in mres]
             mspec = ctx.model("opt", "".join(spec_line(real, c, None, rank, mw=w, avail=[]) + "\n" for c, w in zip(mcases, mws)),
                               args=["spec"])
             for c, a, (rc, out, err_), m, w, sp in zip(mcases, margv, mres, mmod, mws, mspec):
@@ -582,10 +668,42 @@ def run(ctx):
                     ctx.disagreement("opt model vs pdsh -L (module selection)", "active module %s, model `%s`" % (w, m), case)
                 if c.oracle and sp != "ok":
                     for clause in sp.split(" "):
+                        if clause.startswith("misc:") and any(l in "ga" for l, _ in c.opts):
+                            # wrong only because of an option that a module provides ?  the same case without them
+                            c2 = Case("dsh", [o for o in c.opts if o[0] not in "ga"], c.env, c.operands)
+                            rc2, out2, _ = real.run("dsh", ["-L"] + c2.argv(), dict(c.env, PDSH_MODULE_DIR=moddir), user=1000)
+                            sp2 = ctx.model("opt", spec_line(real, c2, None, rank, mw=active_misc(out2), avail=[]) + "\n",
+                                            args=["spec"])[0]
+                            if sp2 == "ok":
+                                clause += ":module-option-with-argument"
                         ctx.offender(clause, "module selection: clause `%s` violated: env %s argv %s -> active %s" %
                                      (clause, c.env, a, w), dict(case, clause=clause))
-        else:
-            ctx.broken.append(("C-BROKEN", "test modules build", mk.stdout.decode("latin1")[-600:]))
+            # the second pass: options of the modules are accepted (their handler), unknown ones are not
+            qcases = []
+            for _ in range(25 if quick else 300):
+                opts = [("w", "foo"), ("q", None)]
+                for l, v in (("g", "x"), ("a", None), ("j", None), ("f", rng.choice(VALID_NUMS)), ("M", "B"), ("N", None)):
+                    if rng.random() < 0.4:
+                        opts.append((l, v))
+                rng.shuffle(opts)
+                qcases.append(Case("dsh", opts, {}, ["true"], [rng.choice(["sep", "att"]) for _ in opts], oracle=False))
+            if rp_case is not None:
+                qcases = []
+            qargv = [c.argv() for c in qcases]
+            with concurrent.futures.ThreadPoolExecutor(max_workers=8) as ex:
+                qres = list(ex.map(lambda ca: real.run("dsh", ca[1], dict(ca[0].env, PDSH_MODULE_DIR=moddir), user=1000),
+                                   zip(qcases, qargv)))
+            qmod = ctx.model("opt", "".join(model_line(real, c, a, avail=[], modopts=MODOPTS) + "\n"
+                                            for c, a in zip(qcases, qargv)), args=["model", bits])
+            for c, a, (rc, out, err_), m in zip(qcases, qargv, qres, qmod):
+                cov["evaluations"] += 1
+                dist["module_options"] = dist.get("module_options", 0) + 1
+                d = parse_dump(out) if rc == 0 else None
+                want = "ok %s" % d["fanout"] if d else "exit %s" % rc
+                got = "ok %s" % m.split(" ")[1] if m.startswith("ok ") else m
+                if got != want:
+                    ctx.disagreement("opt model vs pdsh -q with module options", "impl `%s` model `%s`" % (want, m),
+                                     case_record(ctx, c, a, rc, err_, "modq"))
         # (F) real runs through exec, 5 s limit: accepted configuration classes + refused ones
         rcases = []
         fan_texts = ["1", "2", "3", "32", "2147483647", "+5", " 5", "007", "4294967297", "-1", "-4294967295", "x", "5x"]
